@@ -49,3 +49,39 @@ Definition chk_mi_verdict (p : (list tm * list tm) * list tm) : N :=
     not and the guidance repeats a variable (class F1); 2 = it is not, otherwise. *)
 Definition chk_e2e_verdict (p : list tm * list tm) : N :=
   if instance_of_list (fst p) (snd p) then 0 else if repeats_var (snd p) then 1 else 2.
+
+(** ** One-pass codes: 0 = model agrees and the property holds on the real output. *)
+
+(** aggregate: 1 = model differs (property holds), 2 = property fails on the real output. *)
+Definition chk_agg_code (p : (N * (tm * tm)) * res (binders * tm)) : N :=
+  let m := rs_eqb aggout_eqb (chk_agg (fst p)) (snd p) in
+  let pr := match snd p with
+            | Ok o => chk_inst2 (snd (fst p), snd o)
+            | Panic _ => true
+            end in
+  if pr then (if m then 0 else 1) else 2.
+
+Fixpoint prefixes_ok (seen : list (list tm)) (rest : list (list tm)) (outs : list csubst) : bool :=
+  match rest, outs with
+  | a :: r, g :: o => forallb (fun s => instance_of_list s (snd g)) (seen ++ [a]) && prefixes_ok (seen ++ [a]) r o
+  | _, _ => true
+  end.
+
+(** merge sequences: every answer merged so far is an instance of the real guidance at that point. *)
+Definition chk_mergeseq_code (p : (binders * list csubst) * res (list csubst)) : N :=
+  let m := rs_eqb (list_eqb csubst_eqb) (chk_merge_seq (fst p)) (snd p) in
+  let pr := match snd p, map snd (snd (fst p)) with
+            | Ok outs, first :: rest => prefixes_ok [first] rest outs
+            | _, _ => true
+            end in
+  if pr then (if m then 0 else 1) else 2.
+
+(** may_invalidate: 1 = unchanged model differs; +4 = property fails inside class F1; +8 = property fails outside. *)
+Definition chk_mi_code (p : ((list tm * csubst) * res bool) * option (list tm)) : N :=
+  let '((inp, out), merged) := p in
+  let m := if rs_eqb Bool.eqb (chk_mayinv MOld inp) out then 0 else 1 in
+  let v := match out, merged with
+           | Ok false, Some g' => chk_mi_verdict ((fst inp, snd (snd inp)), g')
+           | _, _ => 0
+           end in
+  m + 4 * v.
